@@ -507,7 +507,7 @@ def run_unit(desc):
         keep = ("no-self-deadlock", "returns-normally", "ends-disabled", "removes-exactly-the-head", "lock-free", "raises-only",
                 "never-accepts", "loop/exit", "clock-ends-at-target")
         res = [r for r in res if any(k in r["id"] for k in keep)]
-    return {
+    rep = {
         "unit": f"{VFILE}::VirtualTimeScheduler",
         "kind": "function contracts with loop invariants (virtual-time run loops)",
         "functions": h.functions,
@@ -517,3 +517,22 @@ def run_unit(desc):
         "bounded": [],
         "replayable": {"runner": "vtsrun.py", "module": "-", "name": prop},
     }
+    if h.unsupported or desc.get("tier") == "thorough":
+        # out of subset (a run loop of another shape): the native schedules against the reference model of virtual time decide, BOUNDED;
+        # thorough tier: the same run as a cross-check of the contracts against CPython
+        import json
+        import os
+        from .report import native, VERIF, REPLAY_DIR
+        r, err = native([os.path.join(VERIF, "rxvc", "vtsrun.py"), "replay", "-", prop if prop in ("C28", "C29") else "C28",
+                         json.dumps({"replay_path": os.path.join(REPLAY_DIR, f"{prop}-standin-virtualtime.py"), "prop": prop,
+                                     "oid": rep["unit"] + "/bounded-standin"})], timeout=900)
+        st = r if r is not None else {"found": [], "error": err, "cases": 0}
+        if h.unsupported:
+            rep["standin"] = st
+        rep["bounded"].append({"function": rep["unit"], "bound": "vtsrun.py: <= 3 actions with due times in {1,2,3} (+150 same-instant actions, self-rescheduling, one "
+                               "cancellation), advance_to / advance_by / sleep / start sequences incl. restart, numeric / test / datetime clocks, against a "
+                               "reference model of virtual time, under a hang watchdog", "cases": st.get("cases", 0), "mismatches": len(st.get("found", [])),
+                               "role": "stand-in (out of subset)" if h.unsupported else "cross-check against CPython"})
+        if not h.unsupported and st.get("found") and all(x["verdict"] == "proved" for x in res):
+            rep["crash"] = f"cross-check failed: contracts proved but the native run found {json.dumps(st['found'][0], default=repr)[:500]}"
+    return rep
